@@ -80,7 +80,7 @@ let answer kw =
       let st = times nn read_dnode in
       let flags = b2s (acyclic_b st) ^ " " ^ b2s (altflat_b st) ^ " " ^ b2s (has_alt_b st) in
       if not (acyclic_b st) then "cyclic|" ^ flags else
-      (match denote st fuel root with
+      (match denote st root with
        | None -> "none|" ^ flags
        | Some l ->
            "ok|" ^ flags ^ "|" ^ String.concat ";" (List.map tree_str l) ^ "|" ^
